@@ -62,6 +62,8 @@ PROPS = {"C17": ["StopReturns", "CallersReleased", "CallerErrorClass", "ReopenCo
 
 CODE_VERSION = json.load(open(os.path.join(SPEC, "code_version.json")))
 
+BOUND = 90   # seconds: >= 100x a normal Stop
+
 KNAME = {1: "getblock", 2: "getcfilter", 3: "getutxo", 4: "rescan", 5: "sendtx", 6: "subscribe", 7: "sync"}
 CNAME = {0: "pending", 1: "shutdown", 2: "cancelled", 3: "legit", 4: "bad", 5: "hung", 6: "none"}
 PNAME = {0: "empty", 1: "silent", 2: "responsive"}
@@ -109,24 +111,23 @@ def config(tier, seed):
     if tier == "quick":
         # all single activities (x pool x moment, also begun after Stop) and a
         # seed-chosen sample of the pairs; the pairs with getutxo rotate first
-        ux = [p for p in ap if 3 in p]
-        rest = [p for p in ap if 3 not in p]
-        rng.shuffle(ux)
-        rng.shuffle(rest)
-        pairs = ux[:2] + rest[:2]
-        return dict(runs=[dict(Pools="{0,1,2}", MaxAct=2, LateBegin=True, pairs=pairs)],
+        # (pairs with mid-sync have 5x the states: thorough tier only)
+        nosync = [p for p in ap if 7 not in p]
+        pairs = [nosync[(seed * 7 + 3) % len(nosync)]]
+        return dict(runs=[dict(Pools="{0,1,2}", MaxAct=1, LateBegin=True, pairs=[], Dialing=True),
+                          dict(Pools="{0,1,2}", MaxAct=2, LateBegin=False, pairs=pairs)],
                     live=dict(Pools="{0,1,2}", MaxAct=1, LateBegin=True, pairs=ap),
-                    moments=[0, 1], per_key=2, bound=90)
+                    moments=[0, 1], per_key=2, bound=BOUND)
     return dict(runs=[dict(Pools="{%d}" % p, MaxAct=2, LateBegin=False, pairs=ap) for p in (0, 1, 2)]
-                + [dict(Pools="{0,1,2}", MaxAct=1, LateBegin=True, pairs=ap)],
+                + [dict(Pools="{0,1,2}", MaxAct=1, LateBegin=True, pairs=ap, Dialing=True)],
                 live=dict(Pools="{0,1,2}", MaxAct=2, LateBegin=True, pairs=[p for p in ap if 7 not in p]),
-                moments=[0, 1, 2], per_key=3, bound=90)
+                moments=[0, 1, 2], per_key=3, bound=BOUND)
 
 
 def consts_of(run):
     c = dict(Pools=run["Pools"], Kinds="{1,2,3,4,5,6,7}", MaxAct=run["MaxAct"],
              Pairs=pairs_literal(run["pairs"]) if run["pairs"] else "{}",
-             LateBegin=run["LateBegin"], Dialing=False)
+             LateBegin=run["LateBegin"], Dialing=bool(run.get("Dialing")))
     c.update(CODE_VERSION)
     c["FixBR1"] = fix_br1()
     return c
@@ -226,10 +227,18 @@ class G:
 
     def at(self, n):
         st = self.states[n]
-        return {f: PCS[st[i]] for f, i in AT_FIELDS.items()}
+        d = {f: PCS[st[i]] for f, i in AT_FIELDS.items()}
+        j = ACTS_OFF
+        while st[j] != 99:
+            j += 1
+        d["rs"] = PCS[st[j + 4] % 100]
+        return d
 
     def stopped(self, n):
         return self.states[n][-1] == 1
+
+    def dial(self, n):
+        return self.states[n][-2]
 
     def closure(self, S):
         S = set(S)
@@ -292,6 +301,7 @@ STABLE = {"bm": {"cond", "getblk", "getcf", "cflock", "exited"},
           "subh": {"sel", "exited"},
           "blkh": {"sel", "ntfn", "exited"},
           "cfh": {"first", "cond", "qall", "cpq", "getblk", "retry", "exited"},
+          "rs": {"mark", "flock", "filter", "block", "cur"},
           "stop": {"connmgr", "bcast_wait", "utxo_wait", "wm_wait", "sub_wait", "bm_wait", "addr", "bw_wait",
                    "wg_wait"}}
 
@@ -312,18 +322,19 @@ def at_matches(model_at, seen_at, fields):
 # --------------------------------------------------------------------------
 # scenarios from the model's states
 # --------------------------------------------------------------------------
-NOAT = dict(stop="", bm="", disp="", bch="", subh="", blkh="", cfh="")
+NOAT = dict(stop="", bm="", disp="", bch="", subh="", blkh="", cfh="", rs="")
 
 
 def mk_act(op, k=0, m=0, cls=0, res="ok", at=None):
     return {"op": op, "k": k, "m": m, "cls": cls, "res": res, "at": dict(at or NOAT)}
 
 
-def scenarios(g, cfg, rng):
+def scenarios(g, cfg, rng, conf=None):
     """Every Stop edge and every Begin-after-Stop edge of the graph, projected to what the
     driver controls. Returns (list of scenario dicts, coverage targets)."""
     keys = {}     # (pool, acts) -> set of at tuples the model has at Stop
     late = set()  # (pool, acts_pre, (k,m), after_return)
+    slow = set()  # keys from which the model can reach a state where Stop / a caller is stuck
     done_ix = PCS.index("done")
     for e in range(len(g.ef)):
         l = g.el[e]
@@ -332,16 +343,18 @@ def scenarios(g, cfg, rng):
         lab = g.lab[l]
         f = g.ef[e]
         if lab["op"] == "Stop":
-            key = (g.pool(f), g.acts(f))
+            key = (g.pool(f), g.dial(f), g.acts(f))
             at = dict(lab["at"])
             at.pop("stop", None)
             keys.setdefault(key, set()).add(tuple(sorted(at.items())))
+            if conf is not None and key not in slow and conf.may_hang(g.et[e]):
+                slow.add(key)
         elif lab["op"] == "Begin" and g.stopped(f):
             pre = g.acts(f)
             if len(pre) <= 1:
-                late.add((g.pool(f), pre, (lab["k"], lab["m"]), g.states[f][8] == done_ix))
+                late.add((g.pool(f), g.dial(f), pre, (lab["k"], lab["m"]), g.states[f][8] == done_ix))
     out = []
-    for (pool, acts), ats in sorted(keys.items()):
+    for (pool, dial, acts), ats in sorted(keys.items()):
         moments = list(cfg["moments"])
         if not acts:
             moments = [1]
@@ -349,13 +362,15 @@ def scenarios(g, cfg, rng):
             reps = 1 if m < 2 else cfg["per_key"] - 1
             for _ in range(max(1, reps)):
                 steps = [mk_act("Begin", k, mm) for (k, mm) in acts] + [mk_act("Stop", 0, m)]
-                out.append(dict(pool=pool, steps=steps, key=(pool, acts)))
-    for (pool, pre, (k, m), after) in sorted(late):
+                out.append(dict(pool=pool, dial=dial, steps=steps, key=(pool, dial, acts)))
+    for (pool, dial, pre, (k, m), after) in sorted(late):
         steps = [mk_act("Begin", kk, mm) for (kk, mm) in pre] + [mk_act("Stop", 0, 1)]
         if after:
             steps.append(mk_act("StopRet"))
         steps.append(mk_act("Begin", k, m))
-        out.append(dict(pool=pool, steps=steps, key=(pool, pre), late=True))
+        out.append(dict(pool=pool, dial=dial, steps=steps, key=(pool, dial, pre), late=True))
+    # scenarios in which the model says somebody can get stuck take the whole bound: first
+    out.sort(key=lambda s: 0 if s["key"] in slow else 1)
     return out, keys
 
 
@@ -364,7 +379,7 @@ def write_scenarios(scn, fn):
         for i, s in enumerate(scn):
             s["id"] = i
             f.write(json.dumps({"id": i,
-                                "init_obs": {"pool": s["pool"], "stop": 0, "calls": [], "reopen": 0},
+                                "init_obs": {"pool": s["pool"], "dial": s["dial"], "stop": 0, "calls": [], "reopen": 0},
                                 "steps": [{"act": a, "obs": None, "viol": []} for a in s["steps"]]},
                                separators=(",", ":")) + "\n")
 
@@ -379,8 +394,31 @@ class Conformance:
         self.can_ret = {k: g.back_reach(lambda l, k=k: l["op"] == "Ret" and l["k"] == k) for k in range(1, 7)}
         self.init_by_pool = {}
         for n in g.inits:
-            self.init_by_pool.setdefault(g.pool(n), []).append(n)
-        self.at_seen = {}   # scenario key -> set of at tuples observed at Stop
+            self.init_by_pool.setdefault((g.pool(n), g.dial(n)), []).append(n)
+        self._mh = {}
+
+    def may_hang(self, n):
+        """can the model, from node n, reach a state in which Stop or a pending caller is stuck"""
+        g = self.g
+        seen = {n}
+        stack = [n]
+        while stack:
+            x = stack.pop()
+            if x not in self.can_stopret:
+                return True
+            st = g.states[x]
+            j = ACTS_OFF
+            while st[j] != 99:
+                j += 1
+            for k in range(1, 7):
+                if st[j + k] // 100 == 0 and x not in self.can_ret[k]:
+                    return True
+            for e in g.out[x]:
+                t = g.et[e]
+                if t not in seen and g.lab[g.el[e]] is None or (t not in seen and g.lab[g.el[e]]["op"] in ("Ret", "StopRet")):
+                    seen.add(t)
+                    stack.append(t)
+        return False
 
     def step(self, S, a):
         g = self.g
@@ -398,7 +436,7 @@ class Conformance:
                 if a["op"] == "Ret" and (lab["k"], lab["cls"]) != (a["k"], a["cls"]):
                     continue
                 if a["op"] == "Stop" and not at_matches(lab["at"], a.get("at") or {},
-                                                        ("bm", "disp", "bch", "subh", "blkh", "cfh")):
+                                                        ("bm", "disp", "bch", "subh", "blkh", "cfh", "rs")):
                     continue
                 T.add(g.et[e])
         return g.closure(T)
@@ -407,7 +445,7 @@ class Conformance:
         """Returns None if the observed trace is a behaviour of the model, else a dict
         describing the first step at which it leaves the model."""
         g = self.g
-        S = g.closure(self.init_by_pool.get(tr["init_obs"]["pool"], []))
+        S = g.closure(self.init_by_pool.get((tr["init_obs"]["pool"], tr["init_obs"].get("dial", 0)), []))
         if not S:
             return dict(step=0, what="no model state for this pool")
         for i, s in enumerate(tr["steps"]):
@@ -416,7 +454,8 @@ class Conformance:
                 o = s["obs"]
                 ok = False
                 for n in S:
-                    if not at_matches(g.at(n), a.get("at") or {}, ("stop", "bm", "disp", "bch", "subh", "blkh", "cfh")):
+                    if not at_matches(g.at(n), a.get("at") or {},
+                                      ("stop", "bm", "disp", "bch", "subh", "blkh", "cfh", "rs")):
                         continue
                     if o["stop"] == 3:
                         if n in self.can_stopret:
@@ -440,8 +479,8 @@ class Conformance:
         return None
 
 
-def conformance(g, observed):
-    c = Conformance(g)
+def conformance(g, observed, c=None):
+    c = c or Conformance(g)
     n_steps = n_drift = 0
     samples = []
     for t in observed:
@@ -510,8 +549,8 @@ def label(a):
         return "Stop[m%d]" % a.get("m", 0)
     if op == "Hang":
         at = a.get("at") or {}
-        s = "Hang[stop=%s,bm=%s,bch=%s,cfh=%s,blkh=%s,subh=%s,disp=%s]" % tuple(
-            at.get(f, "") for f in ("stop", "bm", "bch", "cfh", "blkh", "subh", "disp"))
+        s = "Hang[stop=%s,bm=%s,rs=%s,bch=%s,cfh=%s,blkh=%s,subh=%s,disp=%s]" % tuple(
+            at.get(f, "") for f in ("stop", "bm", "rs", "bch", "cfh", "blkh", "subh", "disp"))
         if a.get("res") == "panic":
             s += "=panic"
         return s
@@ -522,6 +561,11 @@ def label(a):
 
 class _Tlc:
     pass
+
+
+def _tm(what, t):
+    if os.environ.get("VSD_TIMING"):
+        print("timing: %-12s %6.1f s" % (what, time.time() - t), file=os.sys.stderr)
 
 
 def run(prop_id, tier, seed, replay=None):
@@ -545,8 +589,18 @@ def run(prop_id, tier, seed, replay=None):
             # design-level liveness in the background while the graph is exported
             lc = consts_of(cfg["live"])
             th = threading.Thread(target=lambda: live_res.update(
-                run_liveness(lc, os.path.join(sc, "live"), workers=6)))
+                run_liveness(lc, os.path.join(sc, "live"), workers=4)))
             th.start()
+            # ... and the driver is compiled
+            built = {}
+
+            def _build():
+                try:
+                    built["bin"] = family.build_overlay_test(PKG, [NETSIM, DRIVER], os.path.join(sc, "neutrino.test"))
+                except Exception as e:          # reported below, on the main thread
+                    built["err"] = e
+            tb = threading.Thread(target=_build)
+            tb.start()
             g = G()
             for i, r in enumerate(cfg["runs"]):
                 tlc = core.run_tlc([SPEC], "Shutdown", consts_of(r), workers=8,
@@ -560,34 +614,57 @@ def run(prop_id, tier, seed, replay=None):
                 tl.depth = max(tl.depth, tlc.depth)
                 tl.wall += tlc.wall
                 shutil.rmtree(os.path.join(sc, "tlc%d" % i), ignore_errors=True)
+            _tm("tlc+load", t0)
             g.freeze()
-            scn, keys = scenarios(g, cfg, rng)
+            conf0 = Conformance(g)
+            scn, keys = scenarios(g, cfg, rng, conf0)
+            _tm("scenarios %d" % len(scn), t0)
             write_scenarios(scn, pf)
-        binary = family.build_overlay_test(PKG, [NETSIM, DRIVER], os.path.join(sc, "neutrino.test"))
+        if replay:
+            binary = family.build_overlay_test(PKG, [NETSIM, DRIVER], os.path.join(sc, "neutrino.test"))
+        else:
+            tb.join()
+            if "err" in built:
+                raise built["err"]
+            binary = built["bin"]
+        _tm("build", t0)
         observed, log = family.run_driver(binary, "TestVerifShutdownReplay", pf, os.path.join(sc, "obs.ndjson"), sc,
                                           timeout=7000,
                                           env_extra={"VERIF_SEED": str(seed), "VSD_BOUND_S": str(cfg["bound"])})
+        _tm("driver", t0)
         for t in observed:
             for s in t["steps"]:
                 s.pop("viol", None)
         verdict = family.judge([SPEC], "ShutdownProps", PROPS[prop_id], prop_id, observed, label=label)
+        _tm("judge", t0)
         if g is not None:
-            dr, conf = conformance(g, observed)
+            dr, conf = conformance(g, observed, conf0)
+            _tm("conformance", t0)
         else:
             dr, conf = (sum(len(t["steps"]) for t in observed), 0, []), None
         # coverage of the model's Stop moments by what the driver sampled
+        # (a moment = a parked position vector of the goroutines the model has at a Stop edge)
         hit = tot = 0
         if g is not None:
             seen = {}
             for t, s in zip(observed, scn):
                 for st in t["steps"]:
                     if st["act"]["op"] == "Stop":
-                        at = {k: v for k, v in (st["act"].get("at") or {}).items() if k != "stop"}
-                        if any(at.values()):
-                            seen.setdefault(s["key"], set()).add(tuple(sorted(at.items())))
+                        at = st["act"].get("at") or {}
+                        if any(v for k, v in at.items() if k != "stop"):
+                            seen.setdefault(s["key"], []).append(at)
+            flds = ("bm", "disp", "bch", "subh", "blkh", "cfh", "rs")
             for k, ats in keys.items():
-                tot += len(ats)
-                hit += len(ats & seen.get(k, set()))
+                for a in ats:
+                    ad = dict(a)
+                    if any(ad.get(f) not in STABLE[f] for f in flds if f != "rs"):
+                        continue            # a transient position: cannot be sampled
+                    if ad.get("rs") not in STABLE["rs"] | {"off", "ret"}:
+                        continue
+                    tot += 1
+                    if any(at_matches(ad, o, flds) and (o.get("rs", "") in STABLE["rs"]) == (ad.get("rs") in STABLE["rs"])
+                           for o in seen.get(k, [])):
+                        hit += 1
         if not replay:
             th.join()
             if live_res.get("holds") is None:
